@@ -22,7 +22,9 @@ import (
 	"time"
 )
 
-const repoDir = "/repo"
+// repoDir is the gophersat tree the worker is built from: /repo, unless VERIF_REPO names a snapshot of it
+// (used only by background exploration runs, never by the registered checks).
+var repoDir = "/repo"
 
 var verifDir string
 
@@ -68,6 +70,18 @@ func main() {
 func buildWorker(race bool) (string, error) {
 	out := filepath.Join(verifDir, ".build", "vworker")
 	args := []string{"build", "-tags", "verif"}
+	if alt := os.Getenv("VERIF_REPO"); alt != "" && alt != "/repo" {
+		repoDir = alt
+		mod, err := os.ReadFile(filepath.Join(verifDir, "go.mod"))
+		if err != nil {
+			return "", err
+		}
+		os.MkdirAll(filepath.Join(verifDir, ".build"), 0o755)
+		altMod := filepath.Join(verifDir, ".build", "go.alt.mod")
+		os.WriteFile(altMod, []byte(strings.Replace(string(mod), "=> /repo", "=> "+alt, 1)), 0o644)
+		os.WriteFile(filepath.Join(verifDir, ".build", "go.alt.sum"), nil, 0o644)
+		args = append(args, "-modfile="+altMod)
+	}
 	if race {
 		out += "-race"
 		args = append(args, "-race")
